@@ -49,7 +49,9 @@ def run_checks(extra_env):
         if p.returncode != 0:
             rules = sorted({l.split("[")[1].split("]")[0] for l in p.stdout.splitlines() if l.startswith(("VIOLATED", "UNDECIDED")) and "[" in l})
             flagged[c["property_id"]] = rules
-if "--in-repo" in sys.argv:
+if "--no-checks" in sys.argv:
+    pass
+elif "--in-repo" in sys.argv:
     assert subprocess.run("git -C /repo status --porcelain --untracked-files=no", shell=True, capture_output=True, text=True).stdout.strip() == "", "/repo not clean"
     sh(f"git -C /repo apply {patch}")
     try:
